@@ -727,6 +727,23 @@ def enumerated_cases(seed):
                                                mk_def('z', [mk_child('nb', exponent='2'), mk_child('yb', exponent='-1')])],
                 'perms': [[0, 1, 2], [2, 1, 0], [1, 2, 0]]})
     out.append({'kind': 'base_units', 'defs': [mk_def('nb', [mk_child('volt')], base='no')], 'perms': [[0]]})
+    # CellML identifiers are case sensitive: a user unit whose name differs from a built-in (or from "celsius") only
+    # in letter case is an ordinary unit -- as a derived unit and as a new base unit, referenced by a chained unit
+    others = ['second', 'metre', 'kilogram', 'ampere', 'mole', 'volt', 'litre', 'newton']
+    for i, b in enumerate(BUILTINS + ['celsius']):
+        variants = [b.capitalize(), b.upper(), b[:-1] + b[-1].upper()]
+        for j, v in enumerate(variants):
+            o = others[(i + j) % len(others)]
+            ref = b if b != 'celsius' else 'kelvin'
+            out.append({'kind': 'case-name-derived',
+                        'defs': [mk_def(v, [mk_child(o, ['kilo', '-3', 'micro'][j], [None, '2', '-1'][(i + j) % 3], '2.5')]),
+                                 mk_def('chained', [mk_child(v, 'milli', '2'), mk_child(ref, exponent='-1')])],
+                        'perms': [[0, 1], [1, 0]]})
+            out.append({'kind': 'case-name-base',
+                        'defs': [mk_def(v, base='yes'),
+                                 mk_def('chained', [mk_child(v, 'centi', '2', '3'), mk_child(ref)]),
+                                 mk_def('chained2', [mk_child('chained', exponent='0.5')])],
+                        'perms': [[0, 1, 2], [2, 1, 0], [1, 0, 2]]})
     return out
 
 
